@@ -645,6 +645,13 @@ fn scenario(run: &mut Run, dir: &str, state: &str, p: &mut Prng, closed_phase: b
 		}
 		row(run, &s, &wm, &mut cm, state, "stop_updater", 0, false, true, 1, None, true);
 
+		// (for the comparison after the reopen: the pending send's private context as the right token reads it)
+		let ctx_before: Option<(String, String)> = if state == "pending" {
+			s.with(wm.idx, |b, _| b.get_private_context(mtok.as_ref(), cm.slate.id.as_bytes()).ok())
+				.map(|c| (format!("{:?}", c.sec_key), format!("{:?}", c.sec_nonce)))
+		} else {
+			None
+		};
 		// everything on the closed wallet
 		row(run, &s, &wm, &mut cm, state, "close_wallet", 0, false, true, 1, None, false);
 		for (m, v, takes) in table() {
@@ -663,6 +670,19 @@ fn scenario(run: &mut Run, dir: &str, state: &str, p: &mut Prng, closed_phase: b
 		// reopen through the API with the right password: a fresh token is issued
 		cm.pw_right = true;
 		let newtok = wm.owner.open_wallet(None, ZeroingString::from(""), true).unwrap();
+		// what is stored under the seed does not depend on the session: the pending send's context read
+		// with the NEW session's token is the one that was read before the wallet was closed
+		if let Some(before) = &ctx_before {
+			let after: Option<(String, String)> =
+				s.with(wm.idx, |b, _| b.get_private_context(newtok.as_ref(), cm.slate.id.as_bytes()).ok())
+					.map(|c| (format!("{:?}", c.sec_key), format!("{:?}", c.sec_nonce)));
+			run.id += 1;
+			run.out.line(&json!({"id": run.id, "case": {"m": "context_across_reopen", "v": 0, "takes": true, "twin": true, "state": state, "down": false},
+				"impl": [],
+				"oracle": if after.as_ref() == Some(before) { json!([]) } else {
+					json!([format!("the pending send's private context read with the right token of the new session {} the one stored before the wallet was closed: what a masked wallet stores depends on the session token, not only on the seed",
+						if after.is_some() { "differs from" } else { "cannot be read; it is not" })]) }}));
+		}
 		let old = mtok.clone();
 		for (kind, t) in [(0u64, newtok.clone()), (4u64, old)].iter() {
 			// the token of the previous opening is now a wrong token
@@ -704,7 +724,7 @@ fn main() {
 	for r in 0..rounds {
 		for (i, st) in states.iter().enumerate() {
 			let sdir = format!("{}/r{}_{}", dir, r, st);
-			let res = guarded(|| scenario(&mut run, &sdir, st, &mut p, i == 1 || states.len() == 1));
+			let res = guarded(|| scenario(&mut run, &sdir, st, &mut p, i >= 1 || states.len() == 1));
 			if let Err(msg) = res {
 				// a panic outside a guarded call (scenario set-up with the right tokens)
 				run.out.line(&json!({"id": run.id, "case": {"m": "scenario", "v": 0, "takes": true, "twin": true, "state": st},
